@@ -1,5 +1,5 @@
 (* C09 property theorems: statements + `exact lemma` only. *)
-From CJ Require Import Common.Base C09.Model C09.ProofsA C09.ProofsV C09.ProofsS C09.ProofsB C09.ModelR C09.ProofsR.
+From CJ Require Import Common.Base C09.Model C09.ProofsA C09.ProofsV C09.ProofsS C09.ProofsB C09.ModelR C09.ProofsR C09.ProofsSR.
 From Coq Require Import Arith PeanoNat Permutation.
 Local Open Scope nat_scope.
 
@@ -183,3 +183,18 @@ Theorem C09_ingest_equals_serial_run : forall pols ms acts w m acc vs,
   exists vs', r_thr (rrun false pols (rinit ms) (serial_at v w)) w = RW m (REnd acc) vs'.
 Proof. exact ingest_equals_serial_run_lemma. Qed.
 Print Assumptions C09_ingest_equals_serial_run.
+
+(* The table LTS of Model.v with reloads among the threads: any number of workers and of reloads,
+   every schedule (ageing included).  Reloads whose policies judge the registrations in flight as the
+   initial policy does leave the run serializable: final table and announcements are those of the
+   ingests run one after the other in some order (the reloads can be placed anywhere in it). *)
+Theorem C09_serializable_with_reloads : forall share ms rls acts,
+  reloads_ok ms rls ->
+  let c := run false share (init (workers ms ++ rls)) acts in
+  terminal (length ms) c ->
+  exists ms', Permutation ms ms' /\
+              (forall k, view c k = view (serial share ms') k) /\
+              (forall a, count_ann a (announcements c (trace c)) =
+                         count_ann a (announcements (serial share ms') (trace (serial share ms')))).
+Proof. exact serializable_with_reloads_lemma. Qed.
+Print Assumptions C09_serializable_with_reloads.
